@@ -70,7 +70,7 @@ Qed.
 Lemma remove_first_nonempty {A} (p : A -> bool) l : remove_first p l <> [] -> l <> [].
 Proof. destruct l; simpl; congruence. Qed.
 
-Lemma QI_queue_remove_consumer s qn tag : QI s -> QI (queue_remove_consumer s qn tag).
+Lemma QI_queue_remove_consumer s qn c h tag : QI s -> QI (queue_remove_consumer s qn c h tag).
 Proof.
   intros H. unfold queue_remove_consumer. destruct (get_queue s qn) as [qu|] eqn:Eq; auto.
   pose proof (allq_get _ _ _ _ H Eq) as Hq.
